@@ -186,15 +186,24 @@ func Guard(f func()) (ok bool) {
 	}
 }
 
+// SeqHdr is an AVC sequence header tag: its position among the tags and the parameter sets of its
+// AVCDecoderConfigurationRecord (nil: the record could not be parsed)
+type SeqHdr struct {
+	At       int
+	Sps, Pps []byte
+}
+
 type tagRec struct {
-	mu   sync.Mutex
-	tags []string
+	mu    sync.Mutex
+	tags  []string
+	seq   []SeqHdr // the AVC sequence headers, in order
 }
 
 // WriteFlvTag canonicalises a tag: S script, V.<sps>.<pps> sequence header (H.264: decoded from the
 // AVCDecoderConfigurationRecord; H.265: V), A AAC sequence header, v.<key>.<body>, a.<body>
 func (r *tagRec) WriteFlvTag(t *flv.Tag) error {
 	s := "?"
+	var sh *SeqHdr
 	switch t.TagType {
 	case flv.TagTypeAmf0Data:
 		s = "S"
@@ -205,8 +214,10 @@ func (r *tagRec) WriteFlvTag(t *flv.Tag) error {
 				s = "V"
 				if codecID == flv.CodecIDAVC {
 					var rec flv.AVCDecoderConfigurationRecord
+					sh = &SeqHdr{}
 					if err := rec.Unmarshal(t.Data[5:]); err == nil {
 						s = "V." + Digest(rec.SPS) + "." + Digest(rec.PPS)
+						sh.Sps, sh.Pps = append([]byte(nil), rec.SPS...), append([]byte(nil), rec.PPS...)
 					} else {
 						s = "V.undecodable"
 					}
@@ -225,6 +236,10 @@ func (r *tagRec) WriteFlvTag(t *flv.Tag) error {
 		}
 	}
 	r.mu.Lock()
+	if sh != nil {
+		sh.At = len(r.tags)
+		r.seq = append(r.seq, *sh)
+	}
 	r.tags = append(r.tags, s)
 	r.mu.Unlock()
 	return nil
@@ -285,6 +300,7 @@ func (s *splitter) WriteFrame(f *codec.Frame) error {
 type PipeOut struct {
 	ImplOut
 	Tags    []string
+	Seq     []SeqHdr // the AVC sequence headers among Tags
 	Tsf     []string
 	FAlive  bool
 	TAlive  bool
@@ -443,6 +459,7 @@ func runPipelineOnce(c *Case, pkts []WPkt, order []int, asc []byte) (out PipeOut
 	out.Frames = toMFrames(rec.Snapshot(), c, nil, nil)
 	tags.mu.Lock()
 	out.Tags = append([]string(nil), tags.tags...)
+	out.Seq = append([]SeqHdr(nil), tags.seq...)
 	tags.mu.Unlock()
 	tsf.mu.Lock()
 	out.Tsf = append([]string(nil), tsf.frames...)
